@@ -73,6 +73,7 @@ PROFILES = {
         'lowered': 0.3,
         'nops': (4, 14),
         'small_pool': True,
+        'mass': 0.05,
     },
     'C10': {
         'oracles': ['compress', 'views', 'raw', 'meta', 'counts'],
@@ -190,15 +191,16 @@ def generate(prop, seed, tier='quick'):
         # known-keys scan of no_holes, repack and validation page through the index (their page size is not a knob)
         packs = [op for op in ops if op['op'] == 'add_pack' and op.get('t', 'c') == 'c']
         if packs:
-            packs[0]['mass'] = rng.choice([1001, 1203, 2005])
+            packs[0]['mass'] = rng.choice([1001, 1203, 2005, 2005, 3005])
             packs[0].setdefault('seed', 0)
             if 'delete' in prof['weights'] and rng.random() < 0.6:
                 # ... and a later delete removes a long run of consecutively inserted objects (a gap of >= 1000 ids in
                 # the index, possibly a whole page at its start or end), after which everything is compared again
                 mass = packs[0]['mass']
                 lo = rng.choice([0, 0, 1, 7])
-                hi = min(mass, lo + rng.choice([1000, 1001, 1100, mass]))
-                pos = rng.randint(ops.index(packs[0]) + 1, len(ops))
+                hi = min(mass, lo + rng.choice([1000, 1001, 1100, 2000, mass, mass]))  # (>= 1999 ids: a whole aligned page is empty)
+                first = ops.index(packs[0]) + 1
+                pos = rng.randint(first, min(len(ops), first + 2) if rng.random() < 0.6 else len(ops))
                 dele = {'op': 'delete', 'keys': [], 'absent': 0, 'repeats': 0, 'seed': rng.randrange(1 << 20), 'mass_range': [packs[0]['seed'], lo, hi]}
                 if handles > 1:
                     dele['h'] = 0
